@@ -284,7 +284,7 @@ func vC14BfRunInBubble(t *testing.T, c *vh.Case, sc vC14BfScn, target int) *vC14
 
 func TestVerif_C14_buffered(t *testing.T) {
 	vh.Run(t, vh.Spec{Prop: "C14", Unit: "buffered", Quick: 50, Thorough: 2000, CostMs: 40,
-		Rule: "PRNG buffered provider over a fake wrapped provider (every call 1-150 ms of virtual time, Close 0-200 ms) and the journaling datastore (batch size 1-8, idle write time 0.1-5 s) with 1-3 clients enqueuing 2-8 StartProviding/ProvideOnce/StopProviding/Clear/RefreshSchedule; reference run counts boundary events (wrapped calls, datastore accesses, enqueues), re-runs Close immediately after construction, at 2 events on the worker's stack and 2 PRNG indices (thorough: all, <= 64); non-trivial = Close while the worker was inside a wrapped call",
+		Rule:    "PRNG buffered provider over a fake wrapped provider (every call 1-150 ms of virtual time, Close 0-200 ms) and the journaling datastore (batch size 1-8, idle write time 0.1-5 s) with 1-3 clients enqueuing 2-8 StartProviding/ProvideOnce/StopProviding/Clear/RefreshSchedule; reference run counts boundary events (wrapped calls, datastore accesses, enqueues), re-runs Close immediately after construction, at 2 events on the worker's stack and 2 PRNG indices (thorough: all, <= 64); non-trivial = Close while the worker was inside a wrapped call",
 		Clauses: []string{"baseline-clean", "close-returns-in-bound", "inner-closed-once", "no-goroutine-after-close", "close-again-returns", "api-no-panic", "no-goroutine-after-2min", "no-inner-call-after-close"}},
 		func(c *vh.Case) {
 			r := c.R
